@@ -101,7 +101,7 @@ def run(chk: Check, repo: Repo) -> None:
     # (a) ownership + guard order
     for attr in ("__index", "__devices"):
         ws = [w for w in attr_writes(repo, attr) if w.func.module.name == M]
-        chk.floor(f"writers of {attr}", len(ws), 3)
+        chk.floor(f"writers of {attr}", len(ws), 2)
         for w in ws:
             ok = w.func.qualname in ("Devices.__init__", "Devices.async_add", "Devices.async_remove")
             chk.ob("registry-writer", w.func.site(w.stmt), ok, f"{w.kind} on {attr} in {w.func.qualname}: `{canon(w.stmt)[:80]}`", key=f"writer|{attr}|{w.func.qualname}|{w.kind}")
